@@ -166,6 +166,23 @@ class SimulatorBase(
         sim_state = self._create_simulation_state(initial_state, qubits)
         return self._core_iterator(circuit, sim_state)
 
+    def _split_prefix(
+        self, circuit: cirq.AbstractCircuit, predicate
+    ) -> tuple[cirq.AbstractCircuit, cirq.AbstractCircuit]:
+        """Splits off the part of the circuit that can be simulated once for all repetitions.
+
+        Without noise the split is per qubit. A noise model acts moment by moment, so with
+        noise the circuit is only cut between moments, keeping every moment intact.
+        """
+        if self.noise == devices.NO_NOISE:
+            return split_into_matching_protocol_then_general(circuit, predicate)
+        k = 0
+        for moment in circuit:
+            if not all(predicate(op) for op in moment):
+                break
+            k += 1
+        return circuit[:k], circuit[k:]
+
     def _core_iterator(
         self,
         circuit: cirq.AbstractCircuit,
@@ -226,7 +243,7 @@ class SimulatorBase(
         sim_state = self._create_simulation_state(0, qubits)
 
         prefix, general_suffix = (
-            split_into_matching_protocol_then_general(resolved_circuit, self._can_be_in_run_prefix)
+            self._split_prefix(resolved_circuit, self._can_be_in_run_prefix)
             if self._can_be_in_run_prefix(self.noise)
             else (resolved_circuit[0:0], resolved_circuit)
         )
@@ -310,7 +327,7 @@ class SimulatorBase(
         initial_state = 0 if initial_state is None else initial_state
         sim_state = self._create_simulation_state(initial_state, qubits)
         prefix, suffix = (
-            split_into_matching_protocol_then_general(program, sweep_prefixable)
+            self._split_prefix(program, sweep_prefixable)
             if self._can_be_in_run_prefix(self.noise)
             else (program[0:0], program)
         )
